@@ -599,9 +599,10 @@ pub fn run_c17(ctx: &mut Ctx) {
 // ------------------------------------------------------------------------------------------
 // C18
 
-fn c18_doc(rep: &mut Report, doc: &Doc, stats: &mut (u64, u64)) {
+fn c18_doc(rep: &mut Report, doc: &Doc, stats: &mut (u64, u64), kstep: usize) {
     for newlines in [false, true] {
         // fault-free run
+        set_case_str(&format!("C18 {:?} nl={}", doc, newlines));
         let mut clean = FaultSink::new(FailMode::Never);
         let res = guard(|| write_doc(doc, newlines, &mut clean));
         let wit0 = format!("doc {} newlines={}", describe(doc), newlines);
@@ -626,17 +627,16 @@ fn c18_doc(rep: &mut Report, doc: &Doc, stats: &mut (u64, u64)) {
         }
         rep.count("fault_free_runs");
         stats.0 += n as u64;
-        for k in 0..n {
+        for k in (0..n).step_by(kstep) {
             for mode in [FailMode::Once(k), FailMode::From(k)] {
                 rep.eval();
                 stats.1 += 1;
                 let mut sink = FaultSink::new(mode);
-                set_case_str(&format!("C18 {:?} nl={} mode={:?}", doc, newlines, mode));
                 let res = guard(|| write_doc(doc, newlines, &mut sink));
-                let wit = format!("doc {} newlines={} fault={:?} (call {} of {} is {:?})", describe(doc), newlines, mode, k, n, clean.log[k].0);
+                let wit = || format!("doc {} newlines={} fault={:?} (call {} of {} is {:?})", describe(doc), newlines, mode, k, n, clean.log[k].0);
                 let (per_link, fin) = match res {
                     Err(p) => {
-                        rep.violation(&format!("write-{}", p.sig()), p.text(), wit);
+                        rep.violation(&format!("write-{}", p.sig()), p.text(), wit());
                         continue;
                     }
                     Ok(x) => x,
@@ -652,27 +652,27 @@ fn c18_doc(rep: &mut Report, doc: &Doc, stats: &mut (u64, u64)) {
                 };
                 // 1. no accepted write after the failed call
                 if let Some((i, (txt, _))) = sink.log.iter().enumerate().find(|(i, (_, acc))| *i > k && *acc) {
-                    rep.violation(&format!("write-after-failure:{}", what), format!("call {} ({:?}) failed, yet call {} ({:?}) was written afterwards; sink holds {:?}", k, clean.log[k].0, i, txt, sink.content), wit);
+                    rep.violation(&format!("write-after-failure:{}", what), format!("call {} ({:?}) failed, yet call {} ({:?}) was written afterwards; sink holds {:?}", k, clean.log[k].0, i, txt, sink.content), wit());
                     continue;
                 }
                 // 2. final result is an error
                 if fin {
-                    rep.violation(&format!("finish-ok-after-failure:{}", what), format!("call {} ({:?}) failed but LinkFormatWrite::finish() returned Ok", k, clean.log[k].0), wit);
+                    rep.violation(&format!("finish-ok-after-failure:{}", what), format!("call {} ({:?}) failed but LinkFormatWrite::finish() returned Ok", k, clean.log[k].0), wit());
                     continue;
                 }
                 // 3. every per-link finish after the fault is an error
                 if let Some((li, _)) = per_link.iter().enumerate().find(|(_, (calls_then, ok))| *calls_then > k && *ok) {
-                    rep.violation(&format!("attr-finish-ok-after-failure:{}", what), format!("call {} failed but LinkAttributeWrite::finish() of link {} returned Ok", k, li), wit);
+                    rep.violation(&format!("attr-finish-ok-after-failure:{}", what), format!("call {} failed but LinkAttributeWrite::finish() of link {} returned Ok", k, li), wit());
                     continue;
                 }
                 // 3b. finishes before the fault are not errors
                 if per_link.iter().any(|(calls_then, ok)| *calls_then <= k && !*ok) {
-                    rep.violation("finish-error-before-failure", "a link finished before the fault reported an error".into(), wit);
+                    rep.violation("finish-error-before-failure", "a link finished before the fault reported an error".into(), wit());
                     continue;
                 }
                 // 4. sink holds a prefix of the fault-free output
                 if !reference.starts_with(&sink.content) {
-                    rep.violation("sink-not-prefix", format!("sink {:?} is not a prefix of {:?}", sink.content, reference), wit);
+                    rep.violation("sink-not-prefix", format!("sink {:?} is not a prefix of {:?}", sink.content, reference), wit());
                     continue;
                 }
                 rep.count("fault_plans_held");
@@ -689,23 +689,37 @@ fn c18_doc(rep: &mut Report, doc: &Doc, stats: &mut (u64, u64)) {
 
 pub fn run_c18(ctx: &mut Ctx) {
     let mut r = ctx.rng(18);
-    let (budget, shard) = (ctx.budget, ctx.shard);
+    let (budget, shard, level) = (ctx.budget, ctx.shard, ctx.level);
     let rep = &mut ctx.rep;
     let mut stats = (0u64, 0u64);
-    if shard == 0 {
+    if shard == 0 && level > 0 {
         // directed: two links so that the separator path is taken, every attribute method
         let doc = vec![
             Link { target: "/a".into(), attrs: vec![("rt".into(), AttrKind::Quoted("x\"y\\".into())), ("sz".into(), AttrKind::U32(77)), ("ct".into(), AttrKind::U16(40)), ("if".into(), AttrKind::Plain("plain".into())), ("t".into(), AttrKind::Plain("needs quoting".into()))] },
             Link { target: "/b".into(), attrs: vec![] },
             Link { target: "".into(), attrs: vec![("k".into(), AttrKind::Plain("".into()))] },
         ];
-        c18_doc(rep, &doc, &mut stats);
+        c18_doc(rep, &doc, &mut stats, 1);
         rep.distinct(fnv(describe(&doc).as_bytes()));
     }
     for _ in 0..budget {
-        let doc = gen_doc(&mut r, 2);
+        let mut doc = gen_doc(&mut r, 2);
+        if level == 0 {
+            // interpreter-sized: two links, at most two short attributes each
+            doc.truncate(2);
+            for l in doc.iter_mut() {
+                l.attrs.truncate(2);
+                l.target = l.target.chars().take(3).collect();
+                for a in l.attrs.iter_mut() {
+                    if let AttrKind::Plain(v) | AttrKind::Quoted(v) = &mut a.1 {
+                        *v = v.chars().take(3).collect();
+                    }
+                }
+            }
+        }
         rep.distinct(fnv(describe(&doc).as_bytes()));
-        c18_doc(rep, &doc, &mut stats);
+        // interpreter-sized runs sample every 4th fault position; all other runs enumerate all
+        c18_doc(rep, &doc, &mut stats, if level == 0 { 4 } else { 1 });
     }
     rep.add("sink_calls_in_fault_free_runs", stats.0);
     rep.add("fault_plans", stats.1);
